@@ -141,6 +141,7 @@ func runC15(c *hc.Ctx) error {
 		"float64 arithmetic of FromNative / ToNative / MatrixSize / MatrixBoundingBox and roundFloat(.., 9): not modelled; envelope = margin 1e-6 tile sizes from tile borders, coordinates compared to 1e-9 * scale, scale = max(1, |origin x|, |origin y|, matrix width, matrix height)",
 		"uint(x) of a float64 quotient modelled as floor for 0 <= x < 2^63",
 		"the EPSG axis table is regenerated from tms20/epsg_axis_order.go; the oracle's axis order comes from the documents' orderedAxes",
+		"source tie C15_source_tie_addressing (translator/tmsaddr.go -> gen/TmsAddrGen.v): the bodies of axisOrderIsLatLon, IsLatLon, ToXYPoint, MatrixSize, FromNative, ToNative, MatrixBoundingBox, roundFloat are regenerated and proved equal to the model under the reading of Tms/GoAddr.v (float64 as exact Q, uint/int as exact Z, pointers as options); mapped to the model rather than translated: crs.Authority/Version/Code, strings.ToLower, fmt.Sprintf of %s, strconv.ParseUint(s,10,64), regexp ^(p1|p2|..).Match as a prefix test, the EPSG map look-up, calls of roundFloat as the identity (the translated body is proved within 1/(2*10^p) of it), slippy.NewTile, geom.Point.X/Y, fmt.Errorf/errors.New as Error",
 	}
 	c.Sum.Assumptions = []string{"points are finite float64 pairs; tile matrix ids are non-negative (FromNative / ToNative take the id as uint)"}
 
